@@ -128,8 +128,9 @@ def schemata():
         rule(part, 's(X) :- d(X), not &tel { < -p(X) }.\n-p(X) :- q(X), not a.')
     # atoms with string / tuple / function arguments inside formulas; a body formula without temporal operator means its atom, so the instances may be
     # written with plain literals (a reference that does not go through the theory at all)
-    pre = 'e(""). e("a"). e((1,2)). e(f(1)).\nqs(X) :- e(X), q(1), X != "a".\nqs("a") :- q(2).\n'
-    vals = ['""', '"a"', '(1,2)', 'f(1)']
+    # (strings with escape sequences: the theory term of a string is its quoted, escaped text)
+    vals = ['""', '"a"', '(1,2)', 'f(1)', r'"a\"b"', r'"x\\y"', r'"l\nm"', r'g("\"")']
+    pre = ' '.join('e(%s).' % v for v in vals) + '\nqs(X) :- e(X), q(1), X != "a".\nqs("a") :- q(2).\n'
     for part in ('always', 'initial', 'dynamic'):
         S.append((part, pre + 's2(X) :- e(X), not not &tel { qs(X) }.', pre + '\n'.join('s2(%s) :- not not qs(%s).' % (v, v) for v in vals)))
         S.append((part, pre + 's2(X) :- e(X), not &tel { qs(X) | a }.', pre + '\n'.join('s2(%s) :- not qs(%s), not a.' % (v, v) for v in vals)))
